@@ -5,7 +5,7 @@ credential contents through the real pipeline: full reply bytes against the mode
 (both builds); ciphertext-tail manipulations on real AES/Blowfish/CAST credentials."""
 import json, struct
 from ..vlib import leanlib, cbuild, judge
-from ..gen import g_dec
+from ..gen import g_dec, g_stages
 from . import _cred_common as cc
 from . import _cred_checks as K
 
@@ -142,6 +142,9 @@ def run(ctx):
         drv = leanlib.driver(ctx); h = cc.build_toy(ctx)
         judge.run_and_judge(ctx, "replay", rep.get("ops") or [], [h], [drv], what="failure reply (replay)")
         return
+    # dec_validate_mac / dec_decrypt translated with their primitive calls as events: what is MAC'd and compared, deferred padding failure
+    if g_stages.generate(ctx):
+        leanlib.check_props(ctx, "C02Stages")
     leanlib.check_props(ctx, "C09")
     drv = leanlib.driver(ctx)
     htoy = cc.build_toy(ctx)
